@@ -44,6 +44,20 @@ var rywKeys = [][]byte{[]byte("a"), []byte("b"), []byte("c")}
 func genRYW(t *rapid.T) RYWCase {
 	c := RYWCase{PollMs: rapid.SampledFrom([]int{2, 10, 40}).Draw(t, "poll")}
 	n := rapid.IntRange(1, 8).Draw(t, "n")
+	if rapid.IntRange(0, 3).Draw(t, "aimed") == 0 {
+		// aimed prefix: the follower holds a key, ANOTHER client changes it on the leader, and before the follower's next poll a write
+		// that turns out to be a no-op on the leader (a delete of the key that is gone, a transaction whose executed branch is empty)
+		// goes through the follower: it is acknowledged at a revision the follower has not applied yet - it has to wait for it
+		k := rapid.SampledFrom(rywKeys).Draw(t, "aimed.k")
+		c.PollMs = 40
+		c.Ops = append(c.Ops, WOp{Kind: "put", K: k, V: []byte("aimed")})
+		if rapid.Bool().Draw(t, "aimed.delete") {
+			c.Ops = append(c.Ops, WOp{Kind: "leader-delrange", K: k},
+				WOp{Kind: "delrange", K: k, Count: rapid.Bool().Draw(t, "aimed.count"), PrevKv: rapid.Bool().Draw(t, "aimed.prevkv")})
+		} else {
+			c.Ops = append(c.Ops, WOp{Kind: "leader-put", K: k, V: []byte("by-another-client")}, WOp{Kind: "txn-empty-branch", K: k, V: []byte("unused")})
+		}
+	}
 	for i := 0; i < n; i++ {
 		op := WOp{K: rapid.SampledFrom(rywKeys).Draw(t, "k"), V: []byte(fmt.Sprintf("v%d", i))}
 		switch rapid.IntRange(0, 10).Draw(t, "kind") {
